@@ -58,6 +58,7 @@ def gen_cases(ctx):
     n_sites = 1500 if ctx.quick else 20000
     n_cleave = 1200 if ctx.quick else 15000
     n_pool = 150 if ctx.quick else 2000
+    n_tile = 300 if ctx.quick else 4000
     cases = []
     for i in range(n_sites):
         rule = names[i % len(names)]
@@ -158,6 +159,14 @@ def gen_cases(ctx):
                                   seq=''.join(tup), short=True))
                 cases.append(dict(kind='sites_range', rule=rule, exc='trypsin_exception' if rule == 'trypsin' else None,
                                   seq=''.join(tup), short=True))
+    # tiling stream (theorem digest_pieces_tile_the_protein): no filter can reject a piece (k=0, no length / mass
+    # limit, no X, no start-M clipping), so the implementation's peptides in order must concatenate to the protein
+    for i in range(n_tile):
+        rule = names[i % len(names)]
+        exc = pick_exc(rng, rule)
+        s = R.gen_protein(rng, rule, rng.randint(1, 150), extra='U').replace('X', 'A')
+        cases.append(dict(kind='cleave', rule=rule, exc=exc, seq=s, nf=True, tile=True,
+                          k=0, min_len=0, max_len=100000, min_mw=-0.99995, mw4=-10000))
     return cases
 
 def resolved_exc(ps):
@@ -237,6 +246,8 @@ def compare(ctx, cases):
         a, b = canon_impl(c, r), canon_model(c, m)
         if a != b:
             bad.append((c, a, b))
+        elif c.get('tile') and isinstance(a, list) and ''.join(a) != c['seq']:
+            bad.append((c, 'pieces concatenate to ' + ''.join(a), 'tiling theorem: ' + c['seq']))
     return impl, model, bad
 
 def run(ctx):
